@@ -12,7 +12,11 @@
    c06_ghost_is_trace ties them to the allocator events of the trace.
 
    What is NOT proved here:
-   * the shared / swiss variants (one exclusive resource per thread): covered by monitors over real threads only;
+   * the shared / swiss variants: c06_shared_disjoint proves that per-thread exclusive resources fed by shared
+     allocators (answers fresh for every thread's resource) never hand overlapping memory to different threads, for
+     every interleaving of operations and thread creation; that each thread really gets its own resource
+     (EnumerableThreadLocal, C19) and the atomics of the thread-local lookup are covered by monitors over real
+     threads only;
    * "keeps its contents" is proved as: every store the resource performs lies inside one of its own bookkeeping
      arrays and is disjoint from every live block (the model has no byte memory);
    * move: move-assignment into a prepared target is the identity on the state; move construction keeps the
@@ -83,6 +87,15 @@ Theorem c06_release_reusable : forall P, page_size_ok P -> forall s, reach P s -
   fst (fst (step P s Release)) = init.
 Proof. exact mr_release_init. Qed.
 Print Assumptions c06_release_reusable.
+
+(* Shared / swiss variants: a list of exclusive resources, thread t operating on the t-th, new threads appearing
+   at any time (`sreach`), the page allocator and upstream shared (their answers fresh for every resource):
+   blocks and bookkeeping of different threads never overlap. *)
+Theorem c06_shared_disjoint : forall P, page_size_ok P -> forall S, sreach P S -> forall t u st su, t <> u ->
+  nth_error S t = Some st -> nth_error S u = Some su ->
+  forall x y, In x (blocks st ++ books st) -> In y (blocks su ++ books su) -> disj x y.
+Proof. exact mr_shared_disjoint. Qed.
+Print Assumptions c06_shared_disjoint.
 
 (* non-vacuity: real page sizes satisfy the hypothesis, fresh oracles exist, non-trivial states are reachable *)
 Example c06_params_4096 : page_size_ok 4096.
